@@ -32,7 +32,7 @@ func init() {
 }
 
 func C08Params(thorough bool) harness.GenParams {
-	p := harness.GenParams{MaxItems: 7, MaxOps: 7, Reopen: false, MaxPages: 1024, MinPages: 512, NoFill: true, AbortHeavy: true, SmallPages: true}
+	p := harness.GenParams{SyncNone: true, MaxItems: 7, MaxOps: 7, Reopen: false, MaxPages: 1024, MinPages: 512, NoFill: true, AbortHeavy: true, SmallPages: true}
 	if thorough {
 		p.MaxItems = 12
 	}
@@ -119,8 +119,10 @@ func RunC08(p *harness.Program, thorough bool) Result {
 	// I/O failures while opening the existing file: every size/read/mmap call of a
 	// clean Open is failed once; Open must return an error (no panic), release the
 	// file lock, and a following clean Open must show the committed state.
-	if v := openFaultPhase(ref, c); v != nil {
-		return Result{V: v, Counters: c}
+	if thorough || aux(p, 1)%4 == 0 {
+		if v := openFaultPhase(ref, c); v != nil {
+			return Result{V: v, Counters: c}
+		}
 	}
 
 	nontrivial := false
@@ -345,6 +347,85 @@ func openFaultPhase(ref *harness.Runner, c map[string]int) (v *harness.Violation
 			if vv != nil {
 				vv.Msg = fmt.Sprintf("after a failed Open (%s call #%d failing): %s", k, ord, vv.Msg)
 				return vv
+			}
+		}
+	}
+	// Open with a max-size update (internal write transactions, optional preallocation)
+	pageSize := uint64(ref.P.Cfg.PageSize)
+	snap := uint64(0)
+	{
+		dq := simdisk.FromImage("probe", img)
+		dq.SetRecord(false)
+		fq, err := txfile.VerifOpen(dq, txfile.Options{})
+		if err != nil {
+			return nil
+		}
+		snap = uint64(fq.VerifState().MaxPages)
+		fq.Close()
+	}
+	base := snap
+	if base == 0 {
+		base = uint64(len(img))/pageSize + 64
+	}
+	for vi, ropts := range []txfile.Options{
+		{Flags: txfile.FlagUpdMaxSize, MaxSize: (base + 37) * pageSize, Prealloc: true},
+		{Flags: txfile.FlagUpdMaxSize, MaxSize: (base + 11) * pageSize},
+		{Flags: txfile.FlagUpdMaxSize, MaxSize: (64*1024/pageSize + 3) * pageSize},
+	} {
+		dc := simdisk.FromImage("resize0", img)
+		dc.SetRecord(false)
+		dc.Arm(nil)
+		fc, err := txfile.VerifOpen(dc, ropts)
+		if err != nil {
+			continue
+		}
+		rcounts := dc.Counts()
+		fc.Close()
+		for _, k := range []simdisk.CallKind{simdisk.CallWrite, simdisk.CallSync, simdisk.CallTruncate, simdisk.CallSize, simdisk.CallMMap} {
+			for ord := 0; ord < rcounts[k]; ord++ {
+				d := simdisk.FromImage("resizefault", img)
+				d.SetRecord(false)
+				d.Arm(&simdisk.Fault{Kind: k, Ordinal: ord, Burst: 1, NoSpace: k == simdisk.CallTruncate})
+				f, err := txfile.VerifOpen(d, ropts)
+				c["open-fault-runs"]++
+				c["resize-open-fault-runs"]++
+				if err == nil {
+					if d.Injected() > 0 {
+						c["resize-open-fault-tolerated"]++
+					}
+					vv := harness.VerifyAgainst(f, model, -1)
+					if vv == nil {
+						// the returned File must accept a write transaction
+						var tx *txfile.Tx
+						tx, err = f.Begin()
+						if err == nil {
+							err = tx.Commit()
+						}
+						if err != nil {
+							vv = &harness.Violation{Clause: "open-fault-usable", Item: -1, Msg: fmt.Sprintf("write transaction failed: %v", err)}
+						}
+					}
+					f.Close()
+					if vv != nil {
+						vv.Msg = fmt.Sprintf("Open with max-size update #%d and failing %s call #%d returned success, but: %s", vi, k, ord, vv.Msg)
+						return vv
+					}
+					continue
+				}
+				if d.Locked() {
+					return &harness.Violation{Clause: "open-fault-lock", Item: -1, Msg: fmt.Sprintf("Open with max-size update failed (%s call #%d failing) but left the file locked", k, ord)}
+				}
+				d.Arm(nil)
+				f, err = txfile.VerifOpen(d, txfile.Options{})
+				if err != nil {
+					return &harness.Violation{Clause: "reopen-after-faults", Item: -1, Msg: fmt.Sprintf("after a failed Open with max-size update #%d (%s call #%d failing) the next clean Open failed: %v", vi, k, ord, err)}
+				}
+				vv := harness.VerifyAgainst(f, model, -1)
+				f.Close()
+				if vv != nil {
+					vv.Msg = fmt.Sprintf("after a failed Open with max-size update #%d (%s call #%d failing): %s", vi, k, ord, vv.Msg)
+					return vv
+				}
 			}
 		}
 	}
